@@ -281,13 +281,30 @@ class ReadExtractor:
             if v is not None:
                 self.conv(v, ("new", gpath(self.crate, p.rsplit("::", 1)[0])))
                 return it, v
-            # u48 flag: T::new((a as u64) | ((b as u64) << 32))
-            refs = [x for x in (env.get(H.local_name(l)) for l in H.walk(args[0]) if H.tag(l) == "local") if x is not None]
+            # u48 flag: T::new(lo | (hi << 32)) in any spelling (casts or u64::from, | or +, either operand order): two integers read one
+            # after the other, the second shifted left by the width of the first
+            refs = []
+            for l in H.walk(args[0]):
+                if H.tag(l) == "local":
+                    x = env.get(H.local_name(l))
+                    if x is not None and not any(x is y for y in refs):
+                        refs.append(x)
             if len(refs) == 2 and refs[0].get("k") == "int" and refs[1].get("k") == "int":
-                a, b = refs
                 e = H.strip(args[0])
-                ok = (H.tag(e) == "bin" and e[2] == "BitOr" and H.tag(H.strip(e[5])) == "bin" and H.strip(e[5])[2] == "Shl"
-                      and H.lit_int(H.strip(e[5])[5]) == 8 * a["leaf"][1])
+
+                def uses(node):
+                    return [x for x in (env.get(H.local_name(l)) for l in H.walk(node) if H.tag(l) == "local") if x is not None]
+                ok = False
+                if H.tag(e) == "bin" and e[2] in ("BitOr", "Add", "BitXor"):
+                    for hi_side, lo_side in ((H.strip(e[5]), H.strip(e[4])), (H.strip(e[4]), H.strip(e[5]))):
+                        while H.tag(hi_side) == "cast":
+                            hi_side = H.strip(hi_side[4])
+                        if H.tag(hi_side) == "bin" and hi_side[2] == "Shl":
+                            hu, lu = uses(hi_side[4]), uses(lo_side)
+                            if len(hu) == 1 and len(lu) == 1 and hu[0] is not lu[0] and H.lit_int(H.strip(hi_side[5])) == 8 * lu[0]["leaf"][1]:
+                                a, b = lu[0], hu[0]
+                                ok = True
+                                break
                 if ok:
                     a["merged_hi"] = b
                     b["merged_into"] = a
